@@ -801,3 +801,70 @@ Proof. vm_compute. reflexivity. Qed.
 Example ex_length_byte_not_classified :
   parse_stream fnv1a (subst_at 29 200 (encode fnv1a ex_packet)) = ([], StopEOF).
 Proof. vm_compute. reflexivity. Qed.
+
+(* ------------------------------------------------------------------ *)
+(* extensions beyond the 10-bit length field (relay hops accumulate ids) *)
+(* ------------------------------------------------------------------ *)
+
+Lemma be_bytes_mod m : forall w, be_bytes m w = be_bytes m (w mod 256 ^ N.of_nat m).
+Proof.
+  induction m as [|m IHm]; intro w; [reflexivity|].
+  cbn [be_bytes]. rewrite Nat2N.inj_succ, N.pow_succ_r'.
+  replace (2 ^ (8 * N.of_nat m)) with (256 ^ N.of_nat m)
+    by (change 256 with (2 ^ 8); now rewrite <- N.pow_mul_r).
+  set (Q := 256 ^ N.of_nat m).
+  assert (HQ : 0 < Q) by (apply N.neq_0_lt_0, N.pow_nonzero; lia).
+  f_equal.
+  - rewrite (N.mul_comm 256 Q), N.mod_mul_r by lia.
+    rewrite (N.mul_comm Q), N.div_add by lia.
+    rewrite (N.div_small (w mod Q)) by (apply N.mod_lt; lia).
+    cbn [N.add]. now rewrite N.mod_mod by lia.
+  - rewrite (IHm w), (IHm (w mod (256 * Q))). f_equal.
+    rewrite (N.mul_comm 256 Q), N.mod_mul_r by lia.
+    rewrite (N.mul_comm Q), N.mod_add by lia. now rewrite N.mod_mod by lia.
+Qed.
+
+(* what WriteTo puts on the wire for a packet whose extension / hint exceed their fields:
+   the packet with the extension cut to len mod 1024 bytes and the hint mod 64 *)
+Definition norm_ext (p : packet) : packet :=
+  {| p_proto := p_proto p; p_sub := p_sub p; p_src := p_src p; p_dest := p_dest p;
+     p_ttl := p_ttl p; p_payload := p_payload p; p_hint := p_hint p mod 64; p_ext := ext_out p |}.
+
+Lemma ext_out_length p : lenN (ext_out p) = lenN (p_ext p) mod 1024.
+Proof.
+  unfold ext_out, lenN. rewrite firstn_length.
+  assert (N.of_nat (length (p_ext p)) mod 1024 <= N.of_nat (length (p_ext p))) by (apply N.mod_le; lia).
+  lia.
+Qed.
+
+Lemma encode_norm_ext H p : encode H p = encode H (norm_ext p).
+Proof.
+  unfold encode, footer, pkt_hash. change (header (norm_ext p)) with (header p).
+  change (p_payload (norm_ext p)) with (p_payload p). f_equal. f_equal. f_equal.
+  - f_equal. rewrite (be_bytes_mod 2 (extinfo p)), (be_bytes_mod 2 (extinfo (norm_ext p))). f_equal.
+    unfold extinfo. cbn [p_hint p_ext norm_ext]. rewrite ext_out_length.
+    change (256 ^ N.of_nat 2) with 65536.
+    pose proof (N.mod_lt (lenN (p_ext p)) 1024 ltac:(lia)).
+    rewrite (N.mod_small (lenN (p_ext p) mod 1024) 1024) by lia. lia.
+  - unfold ext_out at 2. cbn [p_ext norm_ext]. rewrite ext_out_length.
+    rewrite N.mod_mod by lia. rewrite <- ext_out_length. unfold lenN. rewrite Nat2N.id.
+    symmetry. apply firstn_all.
+Qed.
+
+(* framing stays intact whatever the size of the accumulated extension: the reader gets the
+   cut packet and the rest of the stream is untouched *)
+Lemma oversize_ext_frame H (H_lt : forall x, H x < two64) p rest :
+  wf (norm_ext p) -> parse_one H (encode H p ++ rest) = ROk (norm_ext p) rest.
+Proof. intro W. rewrite encode_norm_ext. now apply parse_one_encode. Qed.
+
+Lemma oversize_ext_stream pre p post :
+  Forall wf pre -> wf (norm_ext p) -> Forall wf post ->
+  parse_stream fnv1a (concat (map (encode fnv1a) pre) ++ encode fnv1a p ++ concat (map (encode fnv1a) post))
+  = (pre ++ norm_ext p :: post, StopEOF).
+Proof.
+  intros Wpre W Wpost.
+  rewrite parse_stream_prefix by auto using fnv1a_lt.
+  rewrite (parse_stream_step fnv1a _ (norm_ext p) (concat (map (encode fnv1a) post)))
+    by (apply oversize_ext_frame; auto using fnv1a_lt).
+  rewrite (stream_roundtrip fnv1a fnv1a_lt post Wpost). reflexivity.
+Qed.
